@@ -741,24 +741,24 @@ PROPS['C03'] = dict(
     assumptions=_LIBM_ASSUME + ['plane cut: proj returns an arbitrary point of the HEALPix image (guarantee I of C17, slack 2^-50), unproj is the identity on the plane with its domain assertion kept'],
 )
 
-# ------------------------------------------------------------------------------------------- C19 (plane cut)
+# ------------------------------------------------------------------------------------------- C19 (cut at hash_with_dxdy)
 _c19 = []
 for _d in range(30):
     for reg in (0, 1):
-        tq = Q if (_d in (0, 1, 2) and reg == 0) or (_d in (0, 1, 3) and reg == 1) else T
-        if _d == 29 and reg == 0:
-            tq = Q
-        for band, bn in ((0, 'npc'), (1, 'eqr'), (2, 'spc')):
-            _c19.append(H('c19_%s_%s_d%d' % ('any' if reg == 0 else 'corner', bn, _d), 'k_c19_point(%d, %d, %d);' % (_d, reg, band), tiers=tq, timeout=2400, mem_gb=12,
-                          unwind=4, unwindset={'verif_common::*': max(6, _d + 1), 'nested::verif_c19::*': 10, 'compass_point::*': 10},
-                          stubs=_PLANE_CUT_N('verif_c19'), inputs=[('x', 'f64'), ('y', 'f64')], replay='c19_pullback',
-                          replay_const={'depth': _d}, covers=['north quadrant', 'west quadrant'],
-                          domain='depth %d: every double point of the HEALPix image in the %s band%s' % (_d, bn, '' if reg == 0 else ' whose cell lacks a S / E / N / W neighbour')))
+        tq = Q if _d in (0, 1, 2, 3, 29) else T
+        _c19.append(H('c19_%s_d%d' % ('any' if reg == 0 else 'corner', _d), 'k_c19_cell(%d, %d);' % (_d, reg), tiers=tq, timeout=2400, mem_gb=10,
+                      unwind=4, unwindset={'verif_common::*': max(6, _d + 1), 'nested::verif_c19::*': 10, 'compass_point::*': 10},
+                      stubs=[('crate::nested::Layer::hash_with_dxdy', 'crate::nested::verif_c19::stub_hash_with_dxdy')],
+                      inputs=[('h', 'u64'), ('a', 'u16'), ('b', 'u16')], replay='c19_cell',
+                      replay_const={'depth': _d}, covers=['north quadrant', 'west quadrant', 'cell centre'],
+                      domain='depth %d: every cell%s x every offset pair (a/256, b/256), a, b in 0..=256' % (_d, '' if reg == 0 else ' lacking a S / E / N / W neighbour')))
 PROPS['C19'] = dict(
     inject=[dict(host='src/nested/mod.rs', mod='verif_c19', parts=['props/c19.rs', 'kani/c19.rs'])],
-    harnesses=_c19, libm=True,
-    functions=['Layer::bilinear_interpolation', 'Layer::hash_with_dxdy', 'Layer::neighbours', 'MainWindMap::get'],
-    bounds={'quick': 'every image point at depths 0, 1, 2; the cells lacking a cardinal neighbour at depths 0, 1, 3', 'thorough': 'every depth 0..=29'},
-    outside='the composition with the real proj (plane cut, see C17 / C03); the hash_with_dxdy range facts are assumed here and decided by the C03 image harness',
-    assumptions=_LIBM_ASSUME + ['plane cut as in C03', 'hash_with_dxdy returns a cell in range and offsets in [0, 1] (decided by C03)'],
+    harnesses=_c19,
+    functions=['Layer::bilinear_interpolation', 'Layer::neighbours', 'MainWindMap::get'],
+    bounds={'quick': 'depths 0, 1, 2, 3, 29: every cell x the 257 x 257 lattice of offsets (incl. 0, 0.5, 1); separately restricted to the cells lacking a cardinal neighbour', 'thorough': 'every depth 0..=29'},
+    outside='offsets that are not multiples of 1/256 (arbitrary doubles make the 32 weight products of the code a 45 M clause instance); the computation of the cell and '
+            'offsets from the position (hash_with_dxdy, decided by C03)',
+    assumptions=['cut at Layer::hash_with_dxdy: it returns the cell number and offsets chosen by the harness (every cell in range, offsets in [0, 1] on the 1/256 lattice)',
+                 'Layer::neighbours is the adjacency oracle (decided against plane geometry by C04)'],
 )
